@@ -754,6 +754,103 @@ theorem mem_varFields_of_spread {c : Ctx} {pfx : String} {vt : TypeId} {gid : Na
       | typename => simpa [varFields] using ih
 
 
+/-! ### several inline fragments on one type: the concatenation of their bodies -/
+
+theorem mem_ownSels_of {vt : TypeId} {x : Sel} {isub : List Sel} : ∀ {sub : List Sel}, Sel.inline vt isub ∈ sub →
+    x ∈ isub → x ∈ ownSels vt sub
+  | [], h, _ => by simp at h
+  | y :: ys, h, hx => by
+    rcases List.mem_cons.mp h with heq | h'
+    · subst heq
+      rw [ownSels]
+      simp [hx]
+    · have ih := mem_ownSels_of h' hx
+      cases y with
+      | inline t isub' => rw [ownSels]; exact List.mem_append_right _ ih
+      | spread g => simpa [ownSels] using ih
+      | field a fid sub => simpa [ownSels] using ih
+      | typename => simpa [ownSels] using ih
+
+theorem ownSels_ind {P : List Sel → Prop} (vt : TypeId) (hnil : P [])
+    (happ : ∀ xs ys, P xs → P ys → P (xs ++ ys)) : ∀ (sub : List Sel),
+    (∀ isub, Sel.inline vt isub ∈ sub → P isub) → P (ownSels vt sub)
+  | [], _ => hnil
+  | y :: ys, h => by
+    have ih := ownSels_ind vt hnil happ ys (fun isub hm => h isub (List.mem_cons_of_mem _ hm))
+    cases y with
+    | inline t isub =>
+      rw [ownSels]
+      by_cases htv : t = vt
+      · subst htv
+        simp only [beq_self_eq_true, ↓reduceIte]
+        exact happ _ _ (h isub (by simp)) ih
+      · have hne : (t == vt) = false := by simpa using htv
+        simpa [hne] using ih
+    | spread g => simpa [ownSels] using ih
+    | field a fid sub => simpa [ownSels] using ih
+    | typename => simpa [ownSels] using ih
+
+theorem fieldKeys_append (s : Schema) (xs ys : List Sel) : fieldKeys s (xs ++ ys) = fieldKeys s xs ++ fieldKeys s ys := by
+  simp [fieldKeys]
+
+theorem fieldKeys_ownSels_sublist (s : Schema) (q : Query) (vt : TypeId) : ∀ (sub : List Sel),
+    (fieldKeys s (ownSels vt sub)).Sublist (varKeys s q vt sub)
+  | [] => by simp [ownSels, varKeys, fieldKeys]
+  | y :: ys => by
+    have ih := fieldKeys_ownSels_sublist s q vt ys
+    cases y with
+    | inline t isub =>
+      rw [ownSels, varKeys, fieldKeys_append]
+      refine List.Sublist.append ?_ ih
+      split <;> simp [fieldKeys]
+    | spread g =>
+      have e1 : ownSels vt (Sel.spread g :: ys) = ownSels vt ys := by simp [ownSels]
+      rw [e1, varKeys]
+      exact ih.trans (List.sublist_append_right _ _)
+    | field a fid sub => simpa [ownSels, varKeys] using ih
+    | typename => simpa [ownSels, varKeys] using ih
+
+theorem sSels_append {s : Schema} {q : Query} {o : Options} {abs : Bool} : ∀ {xs ys : List Sel},
+    sSels s q o abs xs = true → sSels s q o abs ys = true → sSels s q o abs (xs ++ ys) = true
+  | [], _, _, h => h
+  | x :: xs, ys, h1, h2 => by
+    obtain ⟨hx, hxs⟩ := sSels_cons h1
+    rw [List.cons_append, sSels, hx, sSels_append hxs h2]; rfl
+
+theorem envSelsS_append {e : Env} {c : Ctx} {pfx : String} : ∀ {xs ys : List Sel},
+    envSelsS e c pfx xs → envSelsS e c pfx ys → envSelsS e c pfx (xs ++ ys)
+  | [], _, _, h => h
+  | x :: xs, ys, h1, h2 => by
+    rw [envSelsS] at h1
+    rw [List.cons_append, envSelsS]
+    exact ⟨h1.1, envSelsS_append h1.2 h2⟩
+
+theorem rustOkSelsS_append {c : Ctx} : ∀ {xs ys : List Sel},
+    rustOkSelsS c xs = true → rustOkSelsS c ys = true → rustOkSelsS c (xs ++ ys) = true
+  | [], _, _, h => h
+  | x :: xs, ys, h1, h2 => by
+    rw [rustOkSelsS, Bool.and_eq_true] at h1
+    rw [List.cons_append, rustOkSelsS, h1.1, rustOkSelsS_append h1.2 h2]; rfl
+
+theorem noBSels_append {s : Schema} {q : Query} : ∀ {xs ys : List Sel},
+    noBSels s q xs = true → noBSels s q ys = true → noBSels s q (xs ++ ys) = true
+  | [], _, _, h => h
+  | x :: xs, ys, h1, h2 => by
+    rw [noBSels, Bool.and_eq_true] at h1
+    rw [List.cons_append, noBSels, h1.1, noBSels_append h1.2 h2]; rfl
+
+theorem depthsF_append (q : Query) : ∀ (xs ys : List Sel), depthsF q (xs ++ ys) = max (depthsF q xs) (depthsF q ys)
+  | [], ys => by simp [depthsF]
+  | x :: xs, ys => by
+    rw [List.cons_append, depthsF, depthsF, depthsF_append q xs ys]; omega
+
+/-- the canonical form of the value of the own field whose wire name is `f.wire`, found by field key (several inline
+    fragments on one type may each select `__typename`) -/
+def fcanonOfK (s : Schema) (q : Query) (skip : Bool) (sels : List Sel) (f : RField) (v : Json) : Json :=
+  match sels.find? (fun x => fieldKey s x == some f.wire) with
+  | some x => canonFieldS s q skip x v
+  | none => v
+
 section RTS2
 variable (e : Env) (c : Ctx)
 
@@ -798,7 +895,6 @@ theorem rtVarStructS (pfx : String) (ty : TypeId) (rt : Nat) (sub : List Sel)
   obtain ⟨hnd, hst⟩ := hownok
   have hsp := spreadsA_abs hty hok
   obtain ⟨hok1, _, hvk⟩ := absOkS_parts hok
-  obtain ⟨_, _, _, _, _, _, hind, _⟩ := absOk_parts hok1
   obtain ⟨fuel, rfl⟩ : ∃ k, fd = k + 2 := ⟨fd - 2, by omega⟩
   obtain ⟨fs', rfl⟩ : ∃ k, fs = k + 2 := ⟨fs - 2, by omega⟩
   have hcnt := countKey_le_one_of_nodup hnd
@@ -812,38 +908,35 @@ theorem rtVarStructS (pfx : String) (ty : TypeId) (rt : Nat) (sub : List Sel)
   have hown_eq : (varFields c pfx (.object rt) sub).filter (fun f => !f.flatten) =
       fieldsOfV c (pfx ++ "On" ++ c.cs.camel (objName c.s (.object rt))) (ownSels (.object rt) sub) := by
     rw [varFields_own, varOwn_ownSels]
-  obtain ⟨hos1, hos2⟩ := ownSels_spec (.object rt) sub hind
-  have hownS : sSels c.s c.q c.o false (ownSels (.object rt) sub) = true ∧
-      EnumSpec.nodup (respKeys c.s (ownSels (.object rt) sub)) = true ∧
-      envSelsS e c (pfx ++ "On" ++ c.cs.camel (objName c.s (.object rt))) (ownSels (.object rt) sub) ∧
-      rustOkSelsS c (ownSels (.object rt) sub) = true ∧
-      noBSels c.s c.q (ownSels (.object rt) sub) = true ∧
-      depthsF c.q (ownSels (.object rt) sub) + 1 ≤ depthsF c.q sub := by
-    by_cases hm : TypeId.object rt ∈ sub.filterMap inlineTy
-    · obtain ⟨y, hy, hyt⟩ := List.mem_filterMap.mp hm
-      cases y with
-      | inline t' isub =>
-        simp only [inlineTy, Option.some.injEq] at hyt
-        subst hyt
-        rw [hos2 isub hy]
-        have hvy := sSels_mem ht _ hy
-        simp only [sSel, Bool.and_eq_true] at hvy
-        have hey := envSelsS_mem henv _ hy
-        rw [envSelS] at hey
-        have hry := rustOkSelsS_mem hro _ hy
-        rw [rustOkSelS] at hry
-        have hny := noBSels_mem hnbs _ hy
-        rw [noBSel] at hny
-        have hdep := depthsF_mem c.q hy
-        rw [depthF] at hdep
-        exact ⟨hvy.1.2, hvy.2, hey, hry, hny, by omega⟩
-      | field a fid sub' => cases hyt
-      | spread g => cases hyt
-      | typename => cases hyt
-    · rw [hos1 hm]
-      exact ⟨rfl, rfl, trivial, rfl, rfl, by simp only [depthsF]; omega⟩
-  obtain ⟨hoS, hoK, hoE, hoR, hoN, hoD⟩ := hownS
-  have hkn := nodup_iff'.mp hoK
+  have hinl : ∀ isub, Sel.inline (.object rt) isub ∈ sub →
+      sSels c.s c.q c.o false isub = true ∧
+      envSelsS e c (pfx ++ "On" ++ c.cs.camel (objName c.s (.object rt))) isub ∧
+      rustOkSelsS c isub = true ∧
+      noBSels c.s c.q isub = true ∧
+      depthsF c.q isub + 1 ≤ depthsF c.q sub := by
+    intro isub hy
+    have hvy := sSels_mem ht _ hy
+    simp only [sSel, Bool.and_eq_true] at hvy
+    have hey := envSelsS_mem henv _ hy
+    rw [envSelS] at hey
+    have hry := rustOkSelsS_mem hro _ hy
+    rw [rustOkSelS] at hry
+    have hny := noBSels_mem hnbs _ hy
+    rw [noBSel] at hny
+    have hdep := depthsF_mem c.q hy
+    rw [depthF] at hdep
+    exact ⟨hvy.1.2, hey, hry, hny, by omega⟩
+  have hownS := ownSels_ind (P := fun l => sSels c.s c.q c.o false l = true ∧
+      envSelsS e c (pfx ++ "On" ++ c.cs.camel (objName c.s (.object rt))) l ∧
+      rustOkSelsS c l = true ∧
+      noBSels c.s c.q l = true ∧
+      depthsF c.q l + 1 ≤ depthsF c.q sub) (.object rt)
+    ⟨rfl, trivial, rfl, rfl, by simp only [depthsF]; omega⟩
+    (fun xs ys hx hy => ⟨sSels_append hx.1 hy.1, envSelsS_append hx.2.1 hy.2.1, rustOkSelsS_append hx.2.2.1 hy.2.2.1,
+      noBSels_append hx.2.2.2.1 hy.2.2.2.1, by rw [depthsF_append]; omega⟩) sub hinl
+  obtain ⟨hoS, hoE, hoR, hoN, hoD⟩ := hownS
+  have hkn : (fieldKeys c.s (ownSels (.object rt) sub)).Nodup :=
+    (fieldKeys_ownSels_sublist c.s c.q (.object rt) sub).nodup (hvk _ hvt)
   -- the members
   have hmemrt : ∀ gid fr, Sel.spread gid ∈ sub → c.q.fragments[gid]? = some fr → fr.on = .object rt →
       ∃ y, vals.find? (·.1 == (memberField c fr).rust) = some ((memberField c fr).rust, y) ∧
@@ -875,27 +968,26 @@ theorem rtVarStructS (pfx : String) (ty : TypeId) (rt : Nat) (sub : List Sel)
     simp only [mc, hf, hser]
   have hfcanon : ∀ a fid sub', Sel.field a fid sub' ∈ ownSels (.object rt) sub → ∀ f,
       fieldOfSelV c (pfx ++ "On" ++ c.cs.camel (objName c.s (.object rt))) (.field a fid sub') = some f →
-      ∀ v, fcanonOfS c.s c.q c.o.skipNone (ownSels (.object rt) sub) f v =
+      ∀ v, fcanonOfK c.s c.q c.o.skipNone (ownSels (.object rt) sub) f v =
         canonFieldS c.s c.q c.o.skipNone (.field a fid sub') v := by
     intro a fid sub' hx f hfx v
     obtain ⟨sf, ft, hsf, _, hf', _⟩ := fieldOfSelV_s c _ false a fid sub' (sSels_mem hoS _ hx)
     rw [hf'] at hfx
     cases hfx
-    unfold fcanonOfS
-    rw [fieldOf_wire, find_respKey c.s _ _ hkn _ hx (by simp [respKey, hsf])]
+    unfold fcanonOfK
+    rw [fieldOf_wire, find_fieldKey c.s _ _ hkn _ hx (by simp [fieldKey, hsf])]
   have hnonfl : ∀ f ∈ varFields c pfx (.object rt) sub, f.flatten = false →
       f ∈ fieldsOfV c (pfx ++ "On" ++ c.cs.camel (objName c.s (.object rt))) (ownSels (.object rt) sub) := by
     intro f hf hfl
     rw [← hown_eq]; exact List.mem_filter.mpr ⟨hf, by simp [hfl]⟩
   rw [serPath_struct e (fs' + 1) _ n d cr _ hfind,
-    ser_flat (dePath e true (fuel + 1)) (serPath e (fs' + 1)) (fcanonOfS c.s c.q c.o.skipNone (ownSels (.object rt) sub))
+    ser_flat (dePath e true (fuel + 1)) (serPath e (fs' + 1)) (fcanonOfK c.s c.q c.o.skipNone (ownSels (.object rt) sub))
       mc kvs vals (varFields c pfx (.object rt) sub) hownf ?_ ?_ ?_ ?_]
   · rw [flatMap_entriesF_var c pfx (.object rt) _ mc kvs sub ht ?_ hmc]
     · rfl
     · intro t isub hm htv a fid sub' hx f hfx v
       subst htv
-      have : ownSels (.object rt) sub = isub := hos2 isub hm
-      exact hfcanon a fid sub' (this ▸ hx) f hfx v
+      exact hfcanon a fid sub' (mem_ownSels_of hm hx) f hfx v
   · intro f hf hfl j y hl hdx
     obtain ⟨a, fid, sub', sf, ft, hx, hsf, hfx, rfl, _⟩ := mem_fieldsOfS (hnonfl f hf hfl) hoS
     rw [fieldOf_wire] at hl
@@ -1036,7 +1128,7 @@ theorem mem_varKeys {s : Schema} {q : Query} {vt : TypeId} {k : String} : ∀ {s
 theorem varKeys_excl {s : Schema} {q : Query} {o : Options} {ty vt : TypeId} {sub : List Sel}
     (hok : absOkS s q o ty sub = true) (hvne : vt ≠ ty) : ∀ k ∈ varKeys s q vt sub, k ∉ respKeys s sub := by
   obtain ⟨hok1, hsp, _⟩ := absOkS_parts hok
-  obtain ⟨_, _, _, _, _, _, _, hexcl⟩ := absOk_parts hok1
+  obtain ⟨_, _, _, _, _, _, _, hexcl⟩ := absOk2_parts hok1
   intro k hk
   rcases mem_varKeys hk with ⟨isub, h1, h2⟩ | ⟨g, f, h1, h2, h3, h4⟩
   · exact hexcl _ isub h1 k h2
@@ -1064,7 +1156,7 @@ theorem selOn_mem_vts {s : Schema} {q : Query} {o : Options} {ty : TypeId} {sub 
     ∀ t ∈ sub.filterMap (selOn q), t ∈ vtsOfTy s ty := by
   obtain ⟨hok1, _, _⟩ := absOkS_parts hok
   have hsp := spread_onA hty hok hnb
-  obtain ⟨_, _, _, _, _, hin, _, _⟩ := absOk_parts hok1
+  obtain ⟨_, _, _, _, _, hin, _, _⟩ := absOk2_parts hok1
   intro t ht
   obtain ⟨x, hx, hxt⟩ := List.mem_filterMap.mp ht
   cases x with
@@ -1100,7 +1192,7 @@ theorem rtTaggedS (pfx p : String) (ty : TypeId) (sub : List Sel)
       canonVarS c.s c.q c.o.skipNone (rtName c.s rt) sub kvs)) := by
   obtain ⟨hok1, _, _⟩ := absOkS_parts hok
   have hsp := spread_onA hty hok hnb
-  obtain ⟨htn, hrk, hobj, _, hvn, hin, hind, hexcl⟩ := absOk_parts hok1
+  obtain ⟨htn, hrk, hobj, _, hvn, hin, hind, hexcl⟩ := absOk2_parts hok1
   obtain ⟨hp, _, n, d, cr, hfind⟩ := hs
   have hcnt := countKey_le_one_of_nodup hnd
   have hl2 : Json.lookup "__typename" (kvs.filter q') = some (.str (rtName c.s rt)) := by
@@ -1196,10 +1288,10 @@ theorem rtTaggedS (pfx p : String) (ty : TypeId) (sub : List Sel)
 
 /-- what a response object conforming at an abstract position (spreads expanded) looks like -/
 theorem abs_conf_factsS {s : Schema} {q : Query} {o : Options} {ty : TypeId} {sub : List Sel} {j : Json}
-    (hty : absHyp s ty) (hok : absOk s o ty sub = true) (h : conformsAt s ty (expandSels q sub) j = true) :
+    (hty : absHyp s ty) (hok : absOk2 s o ty sub = true) (h : conformsAt s ty (expandSels q sub) j = true) :
     ∃ rt kvs, j = .obj kvs ∧ (kvs.map (·.1)).Nodup ∧ confSelsV s rt (expandSels q sub) kvs = true ∧
       Json.lookup "__typename" kvs = some (.str (rtName s rt)) ∧ TypeId.object rt ∈ vtsOfTy s ty := by
-  obtain ⟨htn, _, _, _, _, _, _, _⟩ := absOk_parts hok
+  obtain ⟨htn, _, _, _, _, _, _, _⟩ := absOk2_parts hok
   simp only [conformsAt, List.any_eq_true, List.mem_range, Bool.and_eq_true] at h
   obtain ⟨rt, hrt, happ, hc⟩ := h
   cases j with
@@ -1234,7 +1326,7 @@ theorem rtAbsS (pfx name : String) (ty : TypeId) (sub : List Sel) (H : ∀ x ∈
   obtain ⟨hok1, _, _⟩ := absOkS_parts hok
   rw [fieldsB_noB c pfx ty sub hnb] at hs
   obtain ⟨rt, kvs, rfl, hnd, hconf, htag, hmem⟩ := abs_conf_factsS hty hok1 hc
-  obtain ⟨htn, hrk, _, _, _, _, _, hexcl⟩ := absOk_parts hok1
+  obtain ⟨htn, hrk, _, _, _, _, _, hexcl⟩ := absOk2_parts hok1
   have hemp := isEmpty_fieldsOfS c pfx true sub ht
   have htagName : tagName kvs = rtName c.s rt := by simp [tagName, htag]
   unfold AbsEnv at hs
@@ -1630,7 +1722,7 @@ theorem norm_absS (ty : TypeId) (sub : List Sel)
   obtain ⟨hok1, _, hvk⟩ := absOkS_parts hok
   have hsp := spread_onA hty hok hnb
   obtain ⟨rt, kvs, rfl, hnd, hconf, htag, hmem⟩ := abs_conf_factsS hty hok1 hc
-  obtain ⟨htn, hrk, _, _, hvn, hin, hind, hexcl⟩ := absOk_parts hok1
+  obtain ⟨htn, hrk, _, _, hvn, hin, hind, hexcl⟩ := absOk2_parts hok1
   have htagName : tagName kvs = rtName s rt := by simp [tagName, htag]
   have hnames : ((vtsOfTy s ty).map (objName s)).Nodup := by
     unfold variantNames at hvn
